@@ -208,7 +208,7 @@ class Ctx:
         env = {}
         if dfs:
             env["JAVA_TOOL_OPTIONS"] = "-Dtlc2.tool.queue.IStateQueue=StateDeque"
-        r = self.tlc(module, cfg, workers=1, timeout=timeout, what=what or "trace validation", count=False, cwd=d, env=env, expect_ok=False)
+        r = self.tlc(module, cfg, workers=1, timeout=timeout, what=what or "trace validation", count=True, cwd=d, env=env, expect_ok=False)
         if r.ok:
             return True, "", r
         m = re.search(r"REJECTED at event.*?(?=\n\S)", r.out, re.S)
